@@ -121,6 +121,7 @@ def run(rec):
                 rec.check(abs(ren - np.linalg.norm(sfull) * np.sqrt(max(0., 1 - err.eps))) < 1e-10, 'svd_theta:renormalization',
                           f'{ren}', inp)
     eigh_rho_checks(rec, rng, quick)
+    qr_based_checks(rec, rng, quick)
 
 
 def eigh_rho_checks(rec, rng, quick):
@@ -160,3 +161,51 @@ def eigh_rho_checks(rec, rng, quick):
                 approx = (Vd * W[np.newaxis, :]) @ Vd.conj().T
                 full = (Vd * lam[np.newaxis, :]) @ Vd.conj().T
                 rec.check(np.allclose(approx, full / (1 - err.eps), atol=1e-9 * max(1, tr)), 'eigh_rho:reconstruction', '', inp)
+
+
+def qr_based_checks(rec, rng, quick):
+    """decompose_theta_qr_based (the truncation step of QR-based TEBD): theta ~= renormalization * T_L S T_R with the reported error equal
+    to the squared relative reconstruction error - also when the projection onto the (slightly expanded) old bond itself loses weight
+    (old bond much smaller than the rank of theta, small `expand`), with and without charges, both directions, both SVD variants"""
+    import tenpy.linalg.np_conserved as npc
+    from tenpy.linalg import truncation
+    for conserve in (False, True):
+        for k in range(2 if quick else 12):
+            chi_out, d = int(rng.integers(4, 8)), 2
+            if conserve:
+                chinfo = npc.ChargeInfo([1])
+                p = npc.LegCharge.from_qflat(chinfo, [[0], [1]])
+                v_out = npc.LegCharge.from_qflat(chinfo, [[0]] * (chi_out // 2) + [[1]] * (chi_out - chi_out // 2))
+                v_old = npc.LegCharge.from_qflat(chinfo, [[0], [1]])
+            else:
+                chinfo = npc.ChargeInfo()
+                p = npc.LegCharge.from_trivial(d, chinfo)
+                v_out = npc.LegCharge.from_trivial(chi_out, chinfo)
+                v_old = npc.LegCharge.from_trivial(int(rng.integers(1, 3)), chinfo)
+            theta = npc.Array.from_func(rng.normal, [v_out, p, p.conj(), v_out.conj()], shape_kw='size', labels=['vL', 'p0', 'p1', 'vR'])
+            theta = (theta * float(rng.uniform(0.5, 2.))).combine_legs([['vL', 'p0'], ['p1', 'vR']])
+            if npc.norm(theta) < 1e-12:
+                continue
+            q0 = chinfo.make_valid()
+            for move_right in (True, False):
+                for use_eig in (False, True):
+                    for chi_max in (None, 2, 3):
+                        inp = {'charges': conserve, 'chi_out': chi_out, 'old_bond': v_old.ind_len, 'move_right': move_right, 'use_eig_based_svd': use_eig,
+                               'chi_max': chi_max, 'seed': rec.seed, 'k': k}
+                        rec.begin(f'C15 decompose_theta_qr_based {inp}')
+                        rec.case(('qr-based', conserve, k, move_right, use_eig, chi_max), True)
+                        ok, res = rec.guarded('decompose_theta_qr_based:exception', lambda: truncation.decompose_theta_qr_based(
+                            old_qtotal_L=q0, old_qtotal_R=q0, old_bond_leg=v_old, theta=theta, move_right=move_right, expand=0.1, min_block_increase=1,
+                            use_eig_based_svd=use_eig, trunc_params={'chi_max': chi_max, 'svd_min': 1e-12}, compute_err=True, return_both_T=True), inp)
+                        if not ok:
+                            continue
+                        T_L, S, T_R, form, err, renorm = res
+                        T_L = T_L.replace_label('(vL.p)', '(vL.p0)')
+                        T_R = T_R.replace_label('(p.vR)', '(p1.vR)')
+                        approx = renorm * npc.tensordot(T_L.scale_axis(S, 'vR') if list(form) == ['A', 'B'] else T_L, T_R, ['vR', 'vL'])
+                        actual = float((npc.norm(theta - approx) / npc.norm(theta)) ** 2)
+                        tol_ = 1e-9 if not use_eig else 1e-6        # (the eigen-decomposition based SVD is documented as less accurate)
+                        rec.check(abs(actual - err.eps) <= tol_ * max(1., actual), 'decompose_theta_qr_based:reported-error',
+                                  f'reported eps {err.eps}, squared relative reconstruction error {actual}', inp)
+                        rec.check(abs(np.linalg.norm(S) - 1) < 1e-9 and (chi_max is None or len(S) <= chi_max), 'decompose_theta_qr_based:S',
+                                  f'|S| = {np.linalg.norm(S)}, {len(S)} values for chi_max {chi_max}', inp)
